@@ -10,7 +10,8 @@ entries nor size, height, branch factor and thresholds, and the name in the root
 name of the tree's top node.  `C05_binary_roundtrip`: decoding the bytes of format "v1.1.5binary" gives back exactly the
 node's keys, values and child names, for every node whose marshaled keys / values are non-empty
 (codec.go reads a zero-length body as "absent" — a real side condition of the format, true of
-every JSON form) and whose lengths fit nine varint bytes.  `C05_reload_behaves_the_same`: the
+every JSON form) and whose lengths fit nine varint bytes; `C05_every_node_roundtrips`: this applies to
+EVERY node the model writes (any well-formed row, any encoder with non-empty bodies and names).  `C05_reload_behaves_the_same`: the
 reloaded tree (all links names) gives the same outputs as the original on every later
 history.  The v1marshaler decoder is `encoding/json` and is not modelled.  The tie (family `persist`, `map`, `format`) compares every stored byte string with
 `encBin`/`encJson`, reloads through a JSON round-trip of the root and compares entries, size,
@@ -91,6 +92,92 @@ example : NodeOK { keys := [[49], [50]], vals := [[53], [54]], links := [none, s
   · exact fits_small _ (by simp)
   · exact fits_small _ (by simp)
 end Mast.Codec
+namespace Mast
+open T Codec
+
+/-- an encoder whose outputs the binary format can carry: non-empty key / value bodies and names,
+    lengths below 128^9 -/
+structure EncOK (e : Enc) : Prop where
+  key : ∀ k, e.keyB k ≠ [] ∧ fits (e.keyB k).length
+  val : ∀ v, e.valB v ≠ [] ∧ fits (e.valB v).length
+  name : ∀ b, e.hash b ≠ [] ∧ fits (e.hash b).length
+
+namespace T
+/-- a node row: entries, then the last link -/
+def Row : T → Prop
+  | nil => False
+  | last _ _ => True
+  | cons _ _ _ _ r => Row r
+
+theorem row_of_WF (layer : Nat → Nat) : ∀ (t : T) (d : Nat), WF layer d t → Row t := by
+  intro t
+  induction t with
+  | nil => intro d h; simp [WF] at h
+  | last p c _ => intro _ _; trivial
+  | cons p c k v r _ ihr => intro d h; rw [WF_cons_iff] at h; exact ihr d h.2.1
+
+theorem rowB_lengths (e : Enc) : ∀ t : T, Row t → (rowB e t).keys.length = rowLen t ∧
+    (rowB e t).vals.length = rowLen t ∧ (rowB e t).links.length = rowLen t + 1 := by
+  intro t
+  induction t with
+  | nil => intro h; cases h
+  | last p c _ => intro _; simp [rowB, rowLen]
+  | cons p c k v r _ ihr =>
+    intro h
+    obtain ⟨h1, h2, h3⟩ := ihr h
+    simp [rowB, rowLen, h1, h2, h3]
+
+theorem rowB_ok (e : Enc) (he : EncOK e) : ∀ t : T, Row t →
+    (∀ b ∈ (rowB e t).keys, b ≠ [] ∧ fits b.length) ∧ (∀ b ∈ (rowB e t).vals, b ≠ [] ∧ fits b.length) ∧
+    (∀ o ∈ (rowB e t).links, ElemOK o) := by
+  have linkOK : ∀ c : T, ElemOK (if c.isNil then none else some (e.hash (e.node (rowB e c)))) := by
+    intro c
+    by_cases hc : c.isNil = true
+    · simp only [hc, if_true]; exact ⟨by simp, by simpa using fits_zero⟩
+    · simp only [hc, Bool.false_eq_true, if_false]
+      exact ⟨fun b hb => by injection hb with hb; subst hb; exact (he.name _).1, by simpa using (he.name _).2⟩
+  intro t
+  induction t with
+  | nil => intro h; cases h
+  | last p c _ =>
+    intro _
+    refine ⟨by simp [rowB], by simp [rowB], ?_⟩
+    intro o ho
+    simp only [rowB, List.mem_singleton] at ho
+    subst ho; exact linkOK c
+  | cons p c k v r _ ihr =>
+    intro h
+    obtain ⟨h1, h2, h3⟩ := ihr h
+    refine ⟨?_, ?_, ?_⟩
+    · intro b hb; simp only [rowB, List.mem_cons] at hb
+      rcases hb with rfl | hb
+      · exact he.key k
+      · exact h1 b hb
+    · intro b hb; simp only [rowB, List.mem_cons] at hb
+      rcases hb with rfl | hb
+      · exact he.val v
+      · exact h2 b hb
+    · intro o ho; simp only [rowB, List.mem_cons] at ho
+      rcases ho with rfl | ho
+      · exact linkOK c
+      · exact h3 o ho
+end T
+
+/-- **every node the model writes decodes back to its keys, values and child names** -/
+theorem Codec.C05_every_node_roundtrips (e : Enc) (he : EncOK e) (t : T) (hr : Row t)
+    (hsize : fits (rowLen t + 1)) :
+    decBinRaw (encBin (rowB e t)) = some (RawNode.mk ((rowB e t).keys.map some) ((rowB e t).vals.map some)
+      (if (rowB e t).links.all Option.isNone then [] else (rowB e t).links)) := by
+  obtain ⟨l1, l2, l3⟩ := rowB_lengths e t hr
+  obtain ⟨o1, o2, o3⟩ := rowB_ok e he t hr
+  have hf : ∀ n, n ≤ rowLen t + 1 → fits n := by
+    intro n hn
+    obtain ⟨f, hf9, hlt⟩ := hsize
+    exact ⟨f, hf9, Nat.lt_of_le_of_lt hn hlt⟩
+  exact decBinRaw_encBin _ ⟨o1, o2, o3, hf _ (by omega), hf _ (by omega), hf _ (by omega)⟩
+end Mast
+
+#print axioms Mast.Codec.C05_every_node_roundtrips
 #print axioms Mast.Tree.C05_reload_behaves_the_same
 #print axioms Mast.Codec.C05_binary_roundtrip
 #print axioms Mast.Tree.C05_flush_keeps_entries
